@@ -22,7 +22,8 @@
    un-negated Confirmed, if any. *)
 From Coq Require Import List NArith.
 From LV Require Import Notifier.Model Notifier.Spec Notifier.Proofs Notifier.SpendLog
-  Notifier.ConfMain.
+  Notifier.ConfMain Notifier.MModel Notifier.MSpec Notifier.MProofs Notifier.MLift
+  Notifier.MExamples.
 Import ListNotations.
 Local Open Scope N_scope.
 
@@ -210,3 +211,134 @@ Theorem C14_spend_stale_rescan_ignored :
     shint (sw_st w) = Some 2 /\ spos (sw_chain w) = Some (2, 0) /\
     slstate 1 (sw_log w) = Some (Some (2, 0)).
 Proof. exact spend_stale_rescan_ignored. Qed.
+
+(* ================================================================== *)
+(* MULTI-REQUEST runs (MModel.v): TxNotifier as a map request -> per-request
+   state next to the height indexes confsByInitialHeight / ntfnsByConfirmHeight /
+   spendsByHeight that are SHARED by all requests (a bucket holds every request
+   whose inclusion / due / spend height coincides).
+
+   Request independence: for every call of a multi-request run that does not
+   panic, and every request r, the projection of the step onto r (r's per-request
+   state, r's entries of the shared indexes, r's hint, the events of r's clients)
+   is exactly the single-request step of Model.v on r's own view of the call
+   ([cop_of r]: the call itself when it is addressed to r or global, with "the
+   block contains r's tx" for ConnectTip); a call addressed to ANOTHER request
+   leaves r's projection unchanged and sends nothing to r's clients. *)
+Theorem C14_multi_conf_independent :
+  forall m o m' res ev r,
+    mcstep m o = Some (m', res, ev) ->
+    match cop_of r o with
+    | Some co => cstep (cproj r m) co = Some (cproj r m', res, tproj r ev)
+    | None => cproj r m' = cproj r m /\ tproj r ev = []
+    end.
+Proof. exact mcstep_proj. Qed.
+
+Theorem C14_multi_spend_independent :
+  forall m o m' res ev r,
+    msstep m o = Some (m', res, ev) ->
+    match sop_of r o with
+    | Some so => sstep (sproj r m) so = Some (sproj r m', res, tproj r ev)
+    | None => sproj r m' = sproj r m /\ tproj r ev = []
+    end.
+Proof. exact msstep_proj. Qed.
+
+(* hence the view of request r of a reachable multi-request world (environment
+   obligations met request by request, [mcvalid] / [msvalid]) is a reachable
+   single-request world ... *)
+Theorem C14_multi_conf_reach :
+  forall ch start lim h0 w,
+    mcreach (mcinit ch start lim h0) w ->
+    forall r, creach (cinit (cchain_of r ch) start lim (h0 r)) (cwproj r w).
+Proof. exact multi_conf_reach. Qed.
+
+Theorem C14_multi_spend_reach :
+  forall ch start lim h0 w,
+    msreach (msinit ch start lim h0) w ->
+    forall r, sreach (sinit (schain_of r ch) start lim (h0 r)) (swproj r w).
+Proof. exact multi_spend_reach. Qed.
+
+(* ... and the per-request theorems hold for EVERY request of a multi-request
+   run, whatever the other requests do and whichever index buckets they share *)
+Theorem C14_multi_conf_hint_safe :
+  forall ch start lim h0 w,
+    mcstart_ok ch start lim h0 -> mcreach (mcinit ch start lim h0) w ->
+    forall r x h b, m_hint (mcw_st w) r = Some x ->
+      cpos (cchain_of r (mcw_chain w)) = Some (h, b) -> x <= h.
+Proof. exact multi_conf_hint_safe. Qed.
+
+Theorem C14_multi_conf_exact :
+  forall ch start lim h0 w,
+    mcstart_ok ch start lim h0 -> mcreach (mcinit ch start lim h0) w ->
+    forall r s c, m_sets (mcw_st w) r = Some s -> In c (cs_ntfns s) ->
+      clstate (c_id c) (tproj r (mcw_log w)) = Some (if c_disp c then cs_det s else None) /\
+      (forall h b, clstate (c_id c) (tproj r (mcw_log w)) = Some (Some (h, b)) ->
+         cpos (cchain_of r (mcw_chain w)) = Some (h, b)) /\
+      (mcw_pending w = false -> cs_rescan s = RComplete ->
+       forall h b, cpos (cchain_of r (mcw_chain w)) = Some (h, b) ->
+         h + c_n c - 1 <= m_cur (mcw_st w) ->
+         clstate (c_id c) (tproj r (mcw_log w)) = Some (Some (h, b))).
+Proof. exact multi_conf_exact. Qed.
+
+Theorem C14_multi_conf_exact_emit :
+  forall ch start lim h0 w o w',
+    mcstart_ok ch start lim h0 -> mcreach (mcinit ch start lim h0) w ->
+    mcvalid w o -> mcwstep w o = Some w' ->
+    forall ev, mcw_log w' = mcw_log w ++ ev ->
+    forall r id h b, In (id, EConf h b) (tproj r ev) ->
+      cpos (cchain_of r (mcw_chain w')) = Some (h, b) /\
+      exists s c, m_sets (mcw_st w') r = Some s /\ In c (cs_ntfns s) /\ c_id c = id /\
+        h + c_n c - 1 <= m_cur (mcw_st w').
+Proof. exact multi_conf_emit. Qed.
+
+Theorem C14_multi_reorg_before_reconf :
+  forall ch start lim h0 w,
+    mcstart_ok ch start lim h0 -> mcreach (mcinit ch start lim h0) w ->
+    forall r id, clstate id (tproj r (mcw_log w)) <> None.
+Proof. exact multi_conf_reorg_before_reconf. Qed.
+
+Theorem C14_multi_spend_hint_safe :
+  forall ch start lim h0 w,
+    msstart_ok ch start lim h0 -> msreach (msinit ch start lim h0) w ->
+    forall r x h t, ms_hint (msw_st w) r = Some x ->
+      spos (schain_of r (msw_chain w)) = Some (h, t) -> x <= h.
+Proof. exact multi_spend_hint_safe. Qed.
+
+Theorem C14_multi_spend_exact :
+  forall ch start lim h0 w,
+    msstart_ok ch start lim h0 -> msreach (msinit ch start lim h0) w ->
+    forall r s c, ms_sets (msw_st w) r = Some s -> In c (ss_ntfns s) ->
+      slstate (s_id c) (tproj r (msw_log w)) = Some (if s_disp c then ss_det s else None) /\
+      (forall h t, slstate (s_id c) (tproj r (msw_log w)) = Some (Some (h, t)) ->
+         spos (schain_of r (msw_chain w)) = Some (h, t)) /\
+      (msw_pending w = false -> ss_rescan s = RComplete ->
+       forall h t, spos (schain_of r (msw_chain w)) = Some (h, t) ->
+         slstate (s_id c) (tproj r (msw_log w)) = Some (Some (h, t))).
+Proof. exact multi_spend_exact. Qed.
+
+Theorem C14_multi_reorg_before_respend :
+  forall ch start lim h0 w,
+    msstart_ok ch start lim h0 -> msreach (msinit ch start lim h0) w ->
+    forall r id, slstate id (tproj r (msw_log w)) <> None.
+Proof. exact multi_spend_reorg_before_respend. Qed.
+
+(* Non-vacuity, on the shape that a whole-bucket deletion in dispatchConfReorg
+   would break: requests 0 (tx in block 3, client 1 wants 3 confirmations) and 1
+   (tx in block 4, client 2 wants 2) wait in the SAME ntfnsByConfirmHeight
+   bucket (height 5); block 4 is reorged out: only request 1's entry leaves the
+   bucket; the new branch (without tx 1) reaches height 5: client 1 is told
+   Confirmed (3, block 3), client 2 got its Updates, the NegativeConf and
+   nothing else.  Every environment obligation holds along the run. *)
+Theorem C14_multi_shared_bucket_reorg :
+  exists w1 w2 w,
+    mcstart_ok mx_chain 2 144 mx_h0 /\
+    mcvrun (mcinit mx_chain 2 144 mx_h0) mx_ops1 w1 /\
+    m_q (mcw_st w1) = [(1, (5, 2)); (0, (5, 1))] /\ m_ini (mcw_st w1) = [(1, 4); (0, 3)] /\
+    mcvrun w1 mx_ops2 w2 /\
+    m_q (mcw_st w2) = [(0, (5, 1))] /\ m_ini (mcw_st w2) = [(0, 3)] /\
+    mcvrun w2 mx_ops3 w /\ mcreach (mcinit mx_chain 2 144 mx_h0) w /\
+    m_cur (mcw_st w) = 5 /\
+    cpos (cchain_of 0 (mcw_chain w)) = Some (3, 3) /\ cpos (cchain_of 1 (mcw_chain w)) = None /\
+    clstate 1 (tproj 0 (mcw_log w)) = Some (Some (3, 3)) /\
+    sel 2 (tproj 1 (mcw_log w)) = [EUpd 1 4; ENeg 1].
+Proof. exact multi_shared_bucket_example. Qed.
